@@ -526,6 +526,10 @@ func C09(c *Ctx) {
 	c.R.Rule("C09-R4", "E5", "a bindings map never contains itself", 2)
 	c.R.Rule("C09-R6", "E6", "state readers decode numbers the way the matcher knows them (float64)", 1)
 	c09Readers(c)
+	c.R.Rule("C09-R7", "E1", "a machine's state is its node and bindings: no script runtime outlives an execution", 3)
+	if ea, ex := c.ecmaAnalysis(); ea != nil {
+		c.runtimeFresh("C09-R7", ea, ex)
+	}
 	step := c.fn("core", "Spec", "Step")
 	walk := c.fn("core", "Spec", "Walk")
 	exec := c.fn("interpreters/ecmascript", "Interpreter", "Exec")
